@@ -137,6 +137,9 @@ func (w *World) visitOn(st *gkvlite.Store, c *gkvlite.Collection, mc *RColl, nam
 		}
 		err = it.Err()
 	}
+	if w.faulted(label, err, true, false) {
+		return
+	}
 	if err != nil {
 		w.Fail("visit", "error", "%s returned error %v", label, err)
 		return
@@ -217,6 +220,9 @@ func (w *World) Exist(name string, key []byte) {
 	w.begin(label, true, true)
 	w.Trans++
 	ex := c.Exist(key)
+	if w.faulted(label, nil, false, false) {
+		return
+	}
 	_, present := w.M.Cur.Colls[name].Items[string(key)]
 	if ex != present {
 		w.Fail("model", "exist-wrong", "%s = %v, model %v", label, ex, present)
@@ -240,6 +246,9 @@ func (w *World) MinMax(name string, max bool, withValue bool) {
 		it, err = c.MaxItem(withValue)
 	} else {
 		it, err = c.MinItem(withValue)
+	}
+	if w.faulted(label, err, true, it != nil) {
+		return
 	}
 	if err != nil {
 		w.Fail("model", "minmax-error", "%s returned error %v", label, err)
@@ -271,9 +280,58 @@ func (w *World) LenOp(name string) {
 	w.begin(label, true, true)
 	w.Trans++
 	l, err := c.Len()
+	if w.faulted(label, err, true, false) {
+		return
+	}
 	n, _ := w.M.Cur.Colls[name].Totals()
 	if err != nil || uint64(l) != n {
 		w.Fail("model", "len-wrong", "%s = (%d,%v), model %d", label, l, err, n)
 	}
 	w.logf("%s=%d", label, l)
+}
+
+// Totals applies GetTotals.
+func (w *World) Totals(name string) {
+	c := w.Colls[name]
+	label := fmt.Sprintf("Totals(%s)", name)
+	w.begin(label, true, true)
+	w.Trans++
+	n, b, err := c.GetTotals()
+	if w.faulted(label, err, true, err != nil && (n != 0 || b != 0)) {
+		return
+	}
+	wn, wb := w.M.Cur.Colls[name].Totals()
+	if err != nil || n != wn || b != wb {
+		w.Fail("model", "totals", "%s = (%d,%d,%v), model (%d,%d)", label, n, b, err, wn, wb)
+	}
+	w.logf("%s=%d,%d", label, n, b)
+}
+
+// ReopenAfterFailedRevert re-opens the file after a FlushRevert that failed:
+// the durable states already in the file must be intact, i.e. the file's last
+// root record (independent decoder) is the newest durable state or the one below.
+func (w *World) ReopenAfterFailedRevert() {
+	w.NeedReopen = false
+	r := FindLastRoot(w.File.Data, int64(len(w.File.Data)))
+	top := w.M.Durable()
+	var below *RState
+	if len(w.M.Flushed) >= 2 {
+		below = w.M.Flushed[len(w.M.Flushed)-2]
+	} else {
+		below = NewRState()
+	}
+	end := int64(0)
+	if r != nil {
+		end = r.End
+	}
+	switch {
+	case end == top.End:
+	case end == below.End:
+		w.M.Flushed = w.M.Flushed[:len(w.M.Flushed)-1]
+	default:
+		w.Fail("fault", "revert-damaged-durable", "after a failed FlushRevert the file's last root record ends at %d; the durable states end at %d and %d", end, top.End, below.End)
+		return
+	}
+	w.Closed = true // the old handle is abandoned, not closed
+	w.Reopen(false)
 }
